@@ -116,7 +116,7 @@ def placements():
 
 
 class Lab:
-    def __init__(self, w, suffix="", local_remote=False):
+    def __init__(self, w, suffix="", local_remote=False, verify=False):
         self.w = w
         self.ffs = {}
         self.stores = {}
@@ -132,6 +132,8 @@ class Lab:
             cfg = {"tmp_dir": w.p("tmp", r)} if r == "R1" else {}
             if cfg:
                 os.makedirs(cfg["tmp_dir"], exist_ok=True)
+            if verify:
+                cfg["verify"] = True   # what comes from this remote is verified on arrival
             if local_remote and r == "R1":
                 # a remote that is a local directory (its existence query is an integrity check)
                 from dvc_data.hashfile.db.local import LocalHashFileDB
@@ -163,7 +165,7 @@ class Lab:
         return idx
 
 
-def one_exec(iname, placement, fail, order="short-first", enoent=False, variant=None):
+def one_exec(iname, placement, fail, order="short-first", enoent=False, variant=None, damage=()):
     from dvc_data.index.checkout import apply, compare
     from dvc_data.index.collect import collect
     from dvc_data.index.fetch import fetch
@@ -173,7 +175,7 @@ def one_exec(iname, placement, fail, order="short-first", enoent=False, variant=
     info = {"fired": 0, "pushed": None}
     entries = INDEXES[iname]
     with World() as w:
-        lab = Lab(w, local_remote=variant == "local-remote-leftover")
+        lab = Lab(w, local_remote=variant == "local-remote-leftover", verify=variant == "damaged-remote-verify")
         ckw = {}
         if variant == "cache-index":
             # the collected per-remote indexes are kept in a persistent cache index that is reused by the retry
@@ -284,6 +286,40 @@ def one_exec(iname, placement, fail, order="short-first", enoent=False, variant=
             return viol, info
         # fetch into empty caches
         fresh = {c: make_odb("local", w.p("fresh", c)) for c in ("C1", "C2")}
+        if damage:
+            # a failed fetch round: objects of a verifying remote are damaged (truncated / rewritten files); what
+            # arrives broken must be counted failed and must not stay in the cache; then the remote is repaired
+            saved = {}
+            for r in ("R1", "R2"):
+                for oid in damage:
+                    pth = lab.stores[r].oid_to_path(oid)
+                    if os.path.exists(pth):
+                        saved[pth] = open(pth, "rb").read()
+                        with open(pth, "wb") as fh:
+                            fh.write(b"damaged:" + saved[pth][: len(saved[pth]) // 2])
+            info["damaged"] = len(saved)
+            try:
+                f1, ff1 = fetch(collect([lab.make_index(iname, placement, caches=fresh, order=order)], "remote"))
+            except Exception as e:  # noqa: BLE001
+                # (a damaged directory object cannot be listed: refusing the whole round with an error is a
+                # failure report too - nothing is claimed about its form, only about what reached the cache)
+                if not any(o.endswith(".dir") for o in damage):
+                    viol.append((f"fetch-raises-{type(e).__name__}", f"{e!r}"))
+                    return viol, info
+                f1 = ff1 = None
+            got1 = {}
+            for c in fresh:
+                got1.update(objects_only(store_snapshot(fresh[c].path)))
+            bad = sorted(o[:8] for o, (dta, _m) in got1.items() if isinstance(dta, bytes) and ref.md5(dta) != o.split(".")[0])
+            if bad:
+                viol.append(("verifying-fetch-left-mismatching-object-in-cache", f"{bad} fetched={f1} failed={ff1}"))
+            if saved and f1 is not None and not ff1:
+                viol.append(("undeliverable-object-but-no-failure-reported", f"fetched={f1} failed={ff1}"))
+            if f1 is not None and f1 != len(got1):
+                viol.append(("fetched-count-differs-from-objects-that-arrived", f"fetched={f1} arrived={len(got1)} failed={ff1}"))
+            for pth, dta in saved.items():
+                with open(pth, "wb") as fh:
+                    fh.write(dta)
         idx2 = lab.make_index(iname, placement, caches=fresh, order=order)
         try:
             fetched, ffailed = fetch(collect([idx2], "remote"))
@@ -318,7 +354,7 @@ def one_exec(iname, placement, fail, order="short-first", enoent=False, variant=
         if ffailed:
             viol.append(("fault-free-fetch-reports-failures", f"{ffailed}"))
         new_c = sum(len(s) for s in fsnap.values())
-        if fetched != new_c:
+        if fetched != new_c and not damage:
             viol.append(("fetched-count-differs-from-objects-that-arrived", f"fetched={fetched} arrived={new_c}"))
         # checkout from the fetched caches reproduces the data
         idx3 = lab.make_index(iname, placement, caches=fresh, order=order)
@@ -397,8 +433,18 @@ def run_case(case):
         for fl in ([], [some[0]], [some[-1]], some[:2]):
             specials.append(("one", SIMPLE, fl, "short-first", False, "cache-index"))
             specials.append(("full", placement, fl, "short-first", False, "cache-index"))
-        for iname, pl, fl, order, enoent, variant in specials:
-            viol, info = one_exec(iname, pl, list(fl), order, enoent, variant)
+        for iname_ in ("one", "full"):
+            objs_ = {}
+            for ent in INDEXES[iname_].values():
+                objs_.update(reachable(ent))
+            for dmg in [[o] for o in sorted(objs_)] + [sorted(objs_)[:2], sorted(objs_)]:
+                specials.append((iname_, SIMPLE if iname_ == "one" else placement, [], "short-first", False,
+                                 "damaged-remote-verify", dmg))
+        for iname, pl, fl, order, enoent, variant, *dmg in specials:
+            dmg = dmg[0] if dmg else []
+            viol, info = one_exec(iname, pl, list(fl), order, enoent, variant, damage=dmg)
+            if info.get("damaged"):
+                res["vac"]["damaged_remote_fetch_rounds"] = res["vac"].get("damaged_remote_fetch_rounds", 0) + 1
             res["n"] += 1
             res["trans"] += 4
             res["vac"]["special_runs"] = res["vac"].get("special_runs", 0) + 1
@@ -408,7 +454,8 @@ def run_case(case):
                 if sig not in sigs:
                     sigs.add(sig)
                     res["viol"].append((sig, detail[:600], {"index": iname, "placement": pl, "fail": list(fl),
-                                                            "order": order, "variant": variant, "tag": tag}))
+                                                            "order": order, "variant": variant, "tag": tag,
+                                                            "damage": list(dmg)}))
     res["outcomes"] = sorted(res["outcomes"])[:40]
     res["nontrivial"] = sorted(res["nontrivial"])
     if case.get("i") == 100:
@@ -419,7 +466,7 @@ def run_case(case):
 def replay(case):
     if case.get("tag"):
         v = one_exec(case["index"], case["placement"], case["fail"], case.get("order", "short-first"), False,
-                     case.get("variant"))[0]
+                     case.get("variant"), damage=case.get("damage", []))[0]
         return [(f"{s_}/{case['tag']}", d_) for s_, d_ in v]
     v = one_exec(case["index"], case["placement"], case["fail"], case.get("order", "short-first"),
                  case.get("enoent", False))[0]
@@ -433,7 +480,7 @@ def run(ctx):
         "in {none,C1,C2} (root has both; roles fall back independently) x 3 indexes (files, directory objects, a "
         "content shared between a file and a directory): collect+push, fetch into empty caches, checkout; E3: for "
         "12 (thorough 48) placements every subset of objects fails to upload in the first round (2^n, n <= 7), "
-        "then a clean retry; non-trivial = placement using both remotes"
+        "then a clean retry; a failed fetch round - each object (and two / all) of a verifying remote damaged - then the remote repaired and a clean retry; non-trivial = placement using both remotes"
     )
     ctx.bound = {"placements": len(ps), "indexes": {k: {"/".join(kk): str(v) for kk, v in x.items()} for k, x in INDEXES.items()}}
     ctx.assumptions = [
@@ -443,7 +490,7 @@ def run(ctx):
         "fetch: the union of the fresh caches must equal the reachable set exactly and each entry's objects must "
         "be in its designated cache",
     ]
-    ctx.require("faults_fired", "multi_remote_placements", "role_fallback_placements", "enoent_faults", "special_runs")
+    ctx.require("faults_fired", "multi_remote_placements", "role_fallback_placements", "enoent_faults", "special_runs", "damaged_remote_fetch_rounds")
     cs = []
     nf = 48 if ctx.tier == "thorough" else 12
     step = max(1, len(ps) // nf)
